@@ -519,3 +519,47 @@ def field_role(prog, fn, expr, at_node):
     if isinstance(expr, ast.Name):
         return row_column_of(prog, fn, at_node).get(expr.id)
     return None
+
+
+FORWARD_EXCEPTIONS = {
+    ('container:Container.pack_all_loose', 'container:Container._write_data_to_packfile', 'compress'): 'pack_all_loose decides per object (CompressMode) and passes that decision',
+    ('container:Container.add_streamed_object_to_pack', 'container:Container.add_streamed_objects_to_pack', 'callback'): 'the single-object wrapper reports progress through its own CallbackStreamWrapper',
+    ('container:Container.import_objects', 'container:Container.add_objects_to_pack', 'callback'): 'import reports its own progress; only the final flush renames the callback',
+    ('container:Container.import_objects', 'container:Container.add_streamed_object_to_pack', 'callback'): 'import reports its own progress',
+}
+
+
+def option_forwarding(ctx, chk, rule, options, S=None):
+    """Every method of Container that has one of `options` among its parameters and calls another method that also has it must pass it on
+    as an expression of its own parameter (never drop it -- the callee's default would silently win -- and never replace it by a constant)."""
+    S = S or Summaries(ctx)
+    K = ctx.kinds
+    n_sites = 0
+    bad = []
+    for f in ctx.prog.all_functions():
+        if isinstance(f.node, ast.Lambda) or f.cls is not K.container:
+            continue
+        for n, cal, effs in S.calls(f):
+            if cal is None or cal.kind != 'internal' or isinstance(cal.target.node, ast.Lambda):
+                continue
+            g = cal.target
+            common = [p_ for p_ in options if p_ in f.params and p_ in g.params]
+            if not common:
+                continue
+            kws = {k.arg: k.value for k in n.keywords}
+            gp = [p_ for p_ in g.params if p_ not in ('self', 'cls')]
+            pos = {gp[i]: a for i, a in enumerate(n.args) if i < len(gp)}
+            for p_ in common:
+                n_sites += 1
+                if (f.qualname, g.qualname, p_) in FORWARD_EXCEPTIONS:
+                    continue
+                v = kws.get(p_, pos.get(p_))
+                if v is None:
+                    bad.append((f, n, f'`{p_}` is not passed to {g.qualname.split(".")[-1]}(): the callee\'s default silently replaces what the caller of {f.name}() asked for'))
+                elif p_ not in {x.id for x in ast.walk(v) if isinstance(x, ast.Name)}:
+                    bad.append((f, n, f'`{p_}={norm(v)}` is passed to {g.qualname.split(".")[-1]}() instead of the caller\'s own `{p_}`'))
+    for f, n, msg in bad:
+        chk.bad(rule, f.qualname, norm(n)[:100], msg, where=f'{f.module.relpath}:{n.lineno}')
+    if not bad:
+        chk.ok(rule, '<Container>', f'{n_sites} forwarding site(s) of {sorted(options)}', detail='every wrapper passes the option on as its own parameter', evals=max(n_sites, 1))
+    return n_sites
